@@ -14,7 +14,11 @@ trap 'git -C /repo worktree remove --force $WT >/dev/null 2>&1' EXIT
 PP="$WT:$WT/pdks/Sky130:$WT/pdks/Gf180:$WT/pdks/Asap7"
 DEMO=$(ls $D/demo* | head -1)
 ( cd $WT && PYTHONPATH=$PP PYTHONDONTWRITEBYTECODE=1 timeout 300 /venv/bin/python $DEMO >/dev/null 2>&1 ); DC=$?
-git -C $WT apply $D/patch.diff || { echo "$D: patch does not apply"; exit 2; }
+git -C $WT apply $D/patch.diff 2>/dev/null || { echo "$(basename $D): patch no longer applies to /repo HEAD"; /venv/bin/python -c "
+import json,os
+p='$D/result.json'; r=json.load(open(p)) if os.path.exists(p) else {}
+r['$TIER']=dict(applies=False, repo_head=os.popen('git -C /repo rev-parse --short HEAD').read().strip())
+json.dump(r,open(p,'w'),indent=1)"; exit 2; }
 ( cd $WT && PYTHONPATH=$PP PYTHONDONTWRITEBYTECODE=1 timeout 300 /venv/bin/python $DEMO >/dev/null 2>&1 ); DX=$?
 BL=$(/verif/tools/run_baseline.py $WT | head -1)
 LOG=/verif/work/seed-$(basename $D)-$TIER-$PID.log
